@@ -589,6 +589,148 @@ Proof.
     + right. exists s. split; [exact Rs|]. apply (Hstop false s); auto; discriminate.
 Qed.
 
+(* how a call ends: r records are committed, the last of them ends at byte e *)
+Definition Fin (r e:Z) (s:st) : Prop :=
+  s_index s <= len src /\ stops src s = true /\ s_eol s = e /\ s_row s = r /\ r <= maxrow /\
+  GoodL (fun _ => r) (s_inds s) (s_vals s) /\
+  ((s_vfull s = true /\ s_ifull s = false /\ 0 <= s_vfc s < ncols /\ bud (s_vfc s) <= len (CB rows (s_vfc s)) /\ e + 1 < len src)
+   \/ (s_vfull s = false /\ s_ifull s = true /\ r = maxrow)
+   \/ (s_vfull s = false /\ s_ifull s = false /\ s_index s = len src)).
+
+Lemma HaltR_Fin cut r e s : r < maxrow -> HaltR cut r e s -> Fin r e s.
+Proof.
+  intros Hr (H1 & H2 & H3 & H4 & H5 & H6 & H7). unfold Fin, stops.
+  split; [exact H1|]. split.
+  - destruct H7 as [(Hv & _)|(_ & Hi & _)]; [rewrite Hv; apply orb_true_r|rewrite Hi, Z.eqb_refl; reflexivity].
+  - split; [exact H3|]. split; [exact H4|]. split; [lia|]. split; [exact H6|].
+    destruct H7 as [(Hv & Hc & Hb)|(Hv & Hi & _)].
+    + left. split; [exact Hv|]. split; [exact H5|]. split; [exact Hc|]. split; [exact Hb|lia].
+    + right. right. auto.
+Qed.
+
+(* the window cuts record k of the table *)
+Definition cutp (k:nat) (p:list Z) : Prop :=
+  p = [] \/ ((k < length rows)%nat /\ exists q, q <> [] /\ render_row (nth k rows []) = p ++ q).
+
+Lemma nth_rect' k : (k < length rows)%nat -> len (nth k rows []) = ncols.
+Proof. intros H. rewrite Forall_forall in Hrect. apply Hrect. apply nth_In. exact H. Qed.
+
+Lemma nth_nonnil k : (k < length rows)%nat -> nth k rows [] <> [].
+Proof. intros H E. pose proof (nth_rect' k H) as Hl. rewrite E in Hl. unfold len in Hl; cbn in Hl; lia. Qed.
+
+Lemma nows_cutp k p : cutp k p -> nows p.
+Proof.
+  intros [->|(Hk & q & _ & E)]; [exact I|]. apply (nows_app_l p q). rewrite <- E. apply nows_row. apply nth_nonnil. exact Hk.
+Qed.
+
+Lemma skipn_nth_cons {A} (d:A) r (l:list A) : (r < length l)%nat -> skipn r l = nth r l d :: skipn (S r) l.
+Proof.
+  revert l. induction r as [|r IH]; intros l H; destruct l as [|x l]; cbn in H; try lia; [reflexivity|].
+  cbn [skipn nth]. apply IH. lia.
+Qed.
+
+Lemma rect_firstn_skipn n r : Forall (fun rw : list cell => len rw = ncols) (firstn n (skipn r rows)).
+Proof.
+  apply Forall_firstn_. clear -Hrect. revert rows Hrect. induction r as [|r IH]; intros l H; [exact H|].
+  destruct l as [|x l]; [constructor|]. cbn [skipn]. apply IH. inversion H; assumption.
+Qed.
+
+Lemma nows_file_app' rws rest : Forall (fun rw : list cell => len rw = ncols) rws -> nows rest -> nows (render_file rws ++ rest).
+Proof.
+  intros H Hn. destruct rws as [|r0 rws]; [exact Hn|]. rewrite render_file_cons, <- app_assoc.
+  apply nows_render_row. pose proof (Forall_inv H) as Hr. cbv beta in Hr. intros E. rewrite E in Hr. unfold len in Hr; cbn in Hr; lia.
+Qed.
+
+Lemma run_rows_g : forall (n r:nat) i e inds vals p,
+  (r + n <= length rows)%nat -> Z.of_nat r < maxrow -> 0 <= i -> e = i - 1 ->
+  suf src i = render_file (firstn n (skipn r rows)) ++ p -> (n <> 0%nat \/ p <> []) -> cutp (r + n) p ->
+  GoodL (fun _ => Z.of_nat r) inds vals ->
+  exists (j:nat) s, (j <= n)%nat /\ reaches (cstate i e 0 (Z.of_nat r) inds vals) s /\
+    Fin (Z.of_nat (r + j)) (i + len (render_file (firstn j (skipn r rows))) - 1) s /\
+    (s_vfull s = false -> s_ifull s = false -> j = n).
+Proof.
+  induction n as [|n IH]; intros r i e inds vals p Hrn Hrm Hi He H Hne Hcut HG.
+  - (* only the cut record is left *)
+    destruct Hne as [Hne|Hne]; [contradiction|]. rewrite Nat.add_0_r in Hcut.
+    destruct Hcut as [->|(Hk & q & Hq & Eq)]; [contradiction|].
+    cbn [firstn render_file map concat app] in H.
+    destruct (run_cells_g (Z.of_nat r) ltac:(unfold nrows, len; lia) ltac:(lia) (nth r rows []) 0 i e inds vals p true
+                (nth_nonnil r Hk) ltac:(lia) ltac:(rewrite nth_rect' by exact Hk; lia) Hi ltac:(lia) H)
+      as [(Hc & _)|(s & Rs & Hh)].
+    { unfold R. split; [exact Hne|]. exists q. auto. }
+    { intros j Hj. rewrite cell_text_eq. rewrite Z.add_0_l, Nat2Z.id. reflexivity. }
+    { eapply GoodL_ext; [|exact HG]. intros x Hx. cbv beta. destruct (x <? 0) eqn:E0; [apply Z.ltb_lt in E0; lia|reflexivity]. }
+    { discriminate. }
+    exists 0%nat, s. split; [lia|]. split; [exact Rs|]. rewrite Nat.add_0_r. cbn [firstn render_file map concat].
+    replace (len (@nil Z)) with 0 by reflexivity. replace (i + 0 - 1) with e by lia.
+    split; [apply (HaltR_Fin true); [lia|exact Hh]|]. intros; reflexivity.
+  - assert (Hr : (r < length rows)%nat) by lia.
+    set (row := nth r rows []).
+    assert (Esk : skipn r rows = row :: skipn (S r) rows) by (apply skipn_nth_cons; exact Hr).
+    rewrite Esk in H. cbn [firstn] in H. rewrite render_file_cons, <- app_assoc in H.
+    assert (Hnw : nows (render_file (firstn n (skipn (S r) rows)) ++ p)).
+    { apply nows_file_app'; [apply rect_firstn_skipn|]. eapply nows_cutp. exact Hcut. }
+    destruct (run_cells_g (Z.of_nat r) ltac:(unfold nrows, len; lia) ltac:(lia) row 0 i e inds vals _ false
+                (nth_nonnil r Hr) ltac:(lia) ltac:(unfold row; rewrite nth_rect' by exact Hr; lia) Hi ltac:(lia) H)
+      as [(_ & n1 & s_pre & inds' & vals' & R1 & Hfin & HG')|(s & Rs & Hh)].
+    { unfold R. eexists. split; [reflexivity|exact Hnw]. }
+    { intros j Hj. rewrite cell_text_eq. rewrite Z.add_0_l, Nat2Z.id. reflexivity. }
+    { eapply GoodL_ext; [|exact HG]. intros x Hx. cbv beta. destruct (x <? 0) eqn:E0; [apply Z.ltb_lt in E0; lia|reflexivity]. }
+    + (* record r is committed *)
+      pose proof (suf_app_len src i _ _ Hi H) as Hs. pose proof (len_nonneg (render_row row)) as Hlr.
+      set (i1 := i + len (render_row row)) in *.
+      assert (Hi1 : i1 <= len src).
+      { assert (Hnn : render_row row ++ render_file (firstn n (skipn (S r) rows)) ++ p <> []).
+        { intros E0. apply app_eq_nil in E0. destruct E0 as (E0 & _). apply (render_row_nonnil row E0). }
+        pose proof (suf_full src i _ Hi H Hnn) as Hfull. rewrite len_app in Hfull.
+        pose proof (len_nonneg (render_file (firstn n (skipn (S r) rows)) ++ p)). unfold i1. lia. }
+      assert (Efs : forall j, firstn (S j) (skipn r rows) = row :: firstn j (skipn (S r) rows)) by (intros j; rewrite Esk; reflexivity).
+      destruct (Z.of_nat r + 1 =? maxrow) eqn:Efl.
+      * (* the index buffer is full *)
+        apply Z.eqb_eq in Efl. eexists 1%nat, _. split; [lia|]. split; [exists n1, s_pre; split; [exact R1|exact Hfin]|].
+        rewrite Efs. cbn [firstn]. rewrite render_file_cons. cbn [render_file map concat]. rewrite app_nil_r. fold i1.
+        split.
+        -- unfold Fin, stops, CsvPrefix.cstate_f. cbn [s_index s_eol s_row s_ifull s_vfull s_vfc s_inds s_vals].
+           split; [exact Hi1|]. split; [rewrite orb_true_r; reflexivity|]. split; [reflexivity|]. split; [lia|]. split; [lia|].
+           split; [replace (Z.of_nat (r + 1)) with (Z.of_nat r + 1) by lia; exact HG'|]. right. left. split; [reflexivity|]. split; [reflexivity|lia].
+        -- unfold CsvPrefix.cstate_f. cbn [s_ifull]. discriminate.
+      * apply Z.eqb_neq in Efl.
+        change (cstate_f false i1 (i1 - 1) 0 (Z.of_nat r + 1) inds' vals') with (cstate i1 (i1 - 1) 0 (Z.of_nat r + 1) inds' vals') in Hfin.
+        replace (Z.of_nat r + 1) with (Z.of_nat (S r)) in Hfin, HG' by lia.
+        assert (Hcase : (n = 0%nat /\ p = []) \/ (n <> 0%nat \/ p <> [])).
+        { destruct n; [|right; left; discriminate]. destruct p; [left; auto|right; right; discriminate]. }
+        destruct Hcase as [(En & Ep)|Hne2].
+        -- (* the window ends exactly here *)
+           subst n p. cbn [firstn render_file map concat app] in Hs. apply suf_nil_iff in Hs; try lia.
+           eexists 1%nat, _. split; [lia|]. split; [exists n1, s_pre; split; [exact R1|exact Hfin]|].
+           rewrite Efs. cbn [firstn]. rewrite render_file_cons. cbn [render_file map concat]. rewrite app_nil_r. fold i1.
+           split; [|intros; reflexivity].
+           unfold Fin, stops, CsvRows.cstate. cbn [s_index s_eol s_row s_ifull s_vfull s_vfc s_inds s_vals].
+           split; [lia|]. split; [rewrite Hs, Z.eqb_refl; reflexivity|]. split; [reflexivity|]. split; [lia|]. split; [lia|].
+           split; [replace (Z.of_nat (r + 1)) with (Z.of_nat (S r)) by lia; exact HG'|]. right. right. auto.
+        -- assert (Hn1 : noexit src (cstate i1 (i1 - 1) 0 (Z.of_nat (S r)) inds' vals')).
+           { unfold noexit, CsvRows.cstate. cbn [s_index s_ifull s_vfull].
+             destruct (render_file (firstn n (skipn (S r) rows)) ++ p) as [|x1 t1] eqn:E1.
+             { exfalso. apply app_eq_nil in E1. destruct E1 as (E1 & E2). destruct Hne2 as [Hn0|Hp0]; [|contradiction].
+               destruct n; [contradiction|]. rewrite (skipn_nth_cons [] (S r) rows) in E1 by lia. cbn [firstn] in E1.
+               rewrite render_file_cons in E1. apply app_eq_nil in E1. destruct E1 as (E1 & _). apply (render_row_nonnil _ E1). }
+             destruct (suf_cons src i1 x1 t1 ltac:(lia) Hs) as (Hlt & _). repeat split; lia. }
+           destruct (IH (S r) i1 (i1 - 1) inds' vals' p ltac:(lia) ltac:(lia) ltac:(lia) eq_refl Hs Hne2) as (j & s & Hj & Rs & HF & Hall).
+           { replace (S r + n)%nat with (r + S n)%nat by lia. exact Hcut. }
+           { exact HG'. }
+           exists (S j), s. split; [lia|]. split.
+           ++ eapply reaches_trans; [exists n1, s_pre; split; [exact R1|exact Hfin]|exact Hn1|exact Rs].
+           ++ rewrite Efs, render_file_cons, len_app. replace (r + S j)%nat with (S r + j)%nat by lia.
+              replace (i + (len (render_row row) + len (render_file (firstn j (skipn (S r) rows)))) - 1)
+                with (i1 + len (render_file (firstn j (skipn (S r) rows))) - 1) by (unfold i1; lia).
+              split; [exact HF|]. intros Hv Hif. f_equal. apply Hall; assumption.
+    + (* values full inside record r *)
+      exists 0%nat, s. split; [lia|]. split; [exact Rs|]. rewrite Nat.add_0_r. cbn [firstn render_file map concat].
+      replace (len (@nil Z)) with 0 by reflexivity. replace (i + 0 - 1) with e by lia.
+      split; [apply (HaltR_Fin false); [lia|exact Hh]|].
+      intros Hv. destruct Hh as (_ & _ & _ & _ & _ & _ & [(Hv2 & _)|(_ & _ & Hc)]); [congruence|discriminate].
+Qed.
+
 End DataG.
 
 End Gen.
